@@ -94,6 +94,7 @@ def handleState (j : Json) : Except String Json := do
           ("rpn", Json.arr ((toRPN s).map tokToJson).toArray),
           ("rpn_final", Json.arr (p.rpnFinal.map tokToJson).toArray),
           ("keys_final", natsToJson p.keysFinal),
+          ("states_ind_final", rowsIndToJson p.statesIndFinal),
           ("mapping", Json.arr (p.mapping.map natsToJson).toArray),
           ("out", outToJson (publicGroups p (!comb.isEmpty)))]
   let model := model.setObjVal! "depth_ok" (Json.bool (depthCheck (toRPN s)))
